@@ -198,123 +198,138 @@ def parseMatrix? : List String → Option (List (List Rat))
     pure (rot3 a b d c s)
   | _ => none
 
+/-- what a request does to the store: nothing, a fresh slot, or one slot replaced -/
+inductive Effect where
+  | keep
+  | push (g : Grid)
+  | update (i : Nat) (g : Grid)
+
+def Effect.apply (st : Store) : Effect → Store
+  | .keep => st
+  | .push g => st.push g
+  | .update i g => st.update i g
+
 /-- One request against the store.  `none` = unparsable (`bad-op`).  Mutating requests answer
 `ok`, non-mutating ones `ok <new slot>`; failed operations leave the store unchanged. -/
-def stepStore (st : Store) : List String → Option (Store × String)
-  | ["reset"] => some ([], "ok")
+def stepEffect (st : Store) : List String → Option (Effect × String)
   | "new" :: sys :: rest =>
     match parseSys? sys, rest.getLast?, parseCoords? rest.dropLast with
     | some sys, some w, some c =>
-      (parseWeights? w).map fun w => (st.push { system := sys, coords := c, weights := w }, s!"ok {st.length}")
+      (parseWeights? w).map fun w => (Effect.push { system := sys, coords := c, weights := w }, s!"ok {st.length}")
     | _, _, _ => none
   | ["copy", i] => do
     let i ← parseNat? i; let g ← st[i]?
-    pure (st.push g, s!"ok {st.length}")
+    pure (Effect.push g, s!"ok {st.length}")
   | ["scale", i, a] => do
     let i ← parseNat? i; let g ← st[i]?; let a ← parseScaleArg? a
     match g.scale a with
-    | some g' => pure (st.update i g', "ok")
-    | none => pure (st, if g.system = .polar then "err value" else "err index")
+    | some g' => pure (Effect.update i g', "ok")
+    | none => pure (Effect.keep, if g.system = .polar then "err value" else "err index")
   | ["scaled", i, a] => do
     let i ← parseNat? i; let g ← st[i]?; let a ← parseScaleArg? a
     match g.scale a with
-    | some g' => pure (st.push g', s!"ok {st.length}")
-    | none => pure (st, if g.system = .polar then "err value" else "err index")
+    | some g' => pure (Effect.push g', s!"ok {st.length}")
+    | none => pure (Effect.keep, if g.system = .polar then "err value" else "err index")
   | ["shift", i, b] => do
     let i ← parseNat? i; let g ← st[i]?; let b ← parseRatList? b
-    pure (st.update i (g.shift b), "ok")
+    pure (Effect.update i (g.shift b), "ok")
   | ["shifted", i, b] => do
     let i ← parseNat? i; let g ← st[i]?; let b ← parseRatList? b
-    pure (st.push (g.shift b), s!"ok {st.length}")
+    pure (Effect.push (g.shift b), s!"ok {st.length}")
   | ["reverse", i] => do
     let i ← parseNat? i; let g ← st[i]?
-    pure (st.update i g.reverse, "ok")
+    pure (Effect.update i g.reverse, "ok")
   | ["reversed", i] => do
     let i ← parseNat? i; let g ← st[i]?
-    pure (st.push g.reverse, s!"ok {st.length}")
+    pure (Effect.push g.reverse, s!"ok {st.length}")
   | ["reverseold", i] => do
     let i ← parseNat? i; let g ← st[i]?
-    pure (st.update i g.reverseOld, "ok")
+    pure (Effect.update i g.reverseOld, "ok")
   | "rotate" :: i :: m => do
     let i ← parseNat? i; let g ← st[i]?; let m ← parseMatrix? m
-    if m.length ≠ g.coords.ndim then pure (st, "err value") else
-    pure (st.update i (g.linmap m), "ok")
+    if m.length ≠ g.coords.ndim then pure (Effect.keep, "err value") else
+    pure (Effect.update i (g.linmap m), "ok")
   | "rotated" :: i :: m => do
     let i ← parseNat? i; let g ← st[i]?; let m ← parseMatrix? m
-    if m.length ≠ g.coords.ndim then pure (st, "err value") else
-    pure (st.push (g.linmapped m), s!"ok {st.length}")
+    if m.length ≠ g.coords.ndim then pure (Effect.keep, "err value") else
+    pure (Effect.push (g.linmapped m), s!"ok {st.length}")
   | ["protate", i, a] => do
     let i ← parseNat? i; let g ← st[i]?; let a ← parseRat? a
-    pure (st.update i (g.polarRotate a), "ok")
+    pure (Effect.update i (g.polarRotate a), "ok")
   | ["protated", i, a] => do
     let i ← parseNat? i; let g ← st[i]?; let a ← parseRat? a
-    pure (st.push (g.polarRotate a), s!"ok {st.length}")
+    pure (Effect.push (g.polarRotate a), s!"ok {st.length}")
   | ["mat", i] => do
     let i ← parseNat? i; let g ← st[i]?
     match g.materialize with
-    | some g' => pure (st.update i g', "ok")
-    | none => pure (st, "err index")
+    | some g' => pure (Effect.update i g', "ok")
+    | none => pure (Effect.keep, "err index")
   | ["uniform", dims, extent, center, hc] => do
     let dims ← parseNatList? dims; let extent ← parseRatList? extent; let center ← parseRatList? center
     let hc ← parseNat? hc
     if dims.length ≠ extent.length ∨ dims.length ≠ center.length then none else
-    pure (st.push (makeUniformGrid dims extent center (hc != 0)), s!"ok {st.length}")
+    pure (Effect.push (makeUniformGrid dims extent center (hc != 0)), s!"ok {st.length}")
   | ["focal", q, na, sr] => do
     let q ← parseRatList? q; let na ← parseRatList? na; let sr ← parseRatList? sr
     if q.length ≠ na.length ∨ q.length ≠ sr.length then none else
-    pure (st.push (makeFocalGrid q na sr), s!"ok {st.length}")
+    pure (Effect.push (makeFocalGrid q na sr), s!"ok {st.length}")
   | ["fft", i, tau, q, fov, shift] => do
     let i ← parseNat? i; let g ← st[i]?; let tau ← parseRat? tau
     let q ← parseRatList? q; let fov ← parseRatList? fov; let shift ← parseRatList? shift
     match g.coords with
     | .regular a =>
       if a.length ≠ q.length ∨ a.length ≠ fov.length ∨ a.length ≠ shift.length then none else
-      if g.system ≠ .cartesian then pure (st, "err value") else
+      if g.system ≠ .cartesian then pure (Effect.keep, "err value") else
       let axes := List.zipWith (fun a x => fftAxis tau a x.1 x.2.1 x.2.2) a (List.zip q (List.zip fov shift))
-      pure (st.push { system := .cartesian, weights := .none, coords := .regular axes }, s!"ok {st.length}")
-    | _ => pure (st, "err value")
+      pure (Effect.push { system := .cartesian, weights := .none, coords := .regular axes }, s!"ok {st.length}")
+    | _ => pure (Effect.keep, "err value")
   | ["super", i, k] => do
     let i ← parseNat? i; let g ← st[i]?; let k ← parseNatList? k
     match g.supersample k with
-    | .ok g' => pure (st.push g', s!"ok {st.length}")
-    | .error e => pure (st, showErr e)
+    | .ok g' => pure (Effect.push g', s!"ok {st.length}")
+    | .error e => pure (Effect.keep, showErr e)
   | ["sub", i, k] => do
     let i ← parseNat? i; let g ← st[i]?; let k ← parseNatList? k
     match g.subsample k with
-    | .ok g' => pure (st.push g', s!"ok {st.length}")
-    | .error e => pure (st, showErr e)
+    | .ok g' => pure (Effect.push g', s!"ok {st.length}")
+    | .error e => pure (Effect.keep, showErr e)
   -- queries
   | ["show", i] => do
     let i ← parseNat? i; let g ← st[i]?
-    pure (st, "ok " ++ showGrid g)
+    pure (Effect.keep, "ok " ++ showGrid g)
   | ["points", i] => do
     let i ← parseNat? i; let g ← st[i]?
-    pure (st, "ok " ++ showRatLists g.coords.points)
+    pure (Effect.keep, "ok " ++ showRatLists g.coords.points)
   | ["wlist", i] => do
     let i ← parseNat? i; let g ← st[i]?
     match g.weightList with
-    | some l => pure (st, "ok " ++ showRatList l)
-    | none => pure (st, "err index")
+    | some l => pure (Effect.keep, "ok " ++ showRatList l)
+    | none => pure (Effect.keep, "err index")
   | ["wlistold", i] => do
     let i ← parseNat? i; let g ← st[i]?
     match g.weightListOld with
-    | some l => pure (st, "ok " ++ showRatList l)
-    | none => pure (st, "err index")
+    | some l => pure (Effect.keep, "ok " ++ showRatList l)
+    | none => pure (Effect.keep, "err index")
   | ["size", i] => do
     let i ← parseNat? i; let g ← st[i]?
-    pure (st, s!"ok {g.coords.size} {g.coords.ndim}")
+    pure (Effect.keep, s!"ok {g.coords.size} {g.coords.ndim}")
   | ["eq", i, j] => do
     let i ← parseNat? i; let j ← parseNat? j; let a ← st[i]?; let b ← st[j]?
-    pure (st, "ok " ++ showBool (a.eq b))
+    pure (Effect.keep, "ok " ++ showBool (a.eq b))
   | ["eqold", i, j] => do
     let i ← parseNat? i; let j ← parseNat? j; let a ← st[i]?; let b ← st[j]?
-    pure (st, "ok " ++ showBool (a.eqOld b))
+    pure (Effect.keep, "ok " ++ showBool (a.eqOld b))
   | ["eqrow", i] => do
     let i ← parseNat? i; let a ← st[i]?
-    pure (st, "ok " ++ String.join (st.map fun b => showBool (a.eq b)))
+    pure (Effect.keep, "ok " ++ String.join (st.map fun b => showBool (a.eq b)))
   | ["hash", i] => do
     let i ← parseNat? i; let g ← st[i]?
-    pure (st, "ok " ++ ",".intercalate (g.hashInput.map showTok))
+    pure (Effect.keep, "ok " ++ ",".intercalate (g.hashInput.map showTok))
   | _ => none
+
+/-- `reset` empties the store; every other request has one `Effect`. -/
+def stepStore (st : Store) (toks : List String) : Option (Store × String) :=
+  if toks = ["reset"] then some ([], "ok")
+  else (stepEffect st toks).map fun r => (r.1.apply st, r.2)
 
 end HcipyVerif.Grid
